@@ -79,3 +79,35 @@ def validate(module, events, name, per_shard=20000, timeout=1800, env=None, cfg=
     if mach:
         raise Machinery('%s: trace generator inconsistent with the specification: %r' % (name, mach[:5]))
     return rejects, stats
+
+
+def binding_demo(module, events, corruptors, name, env=None, group=None, limit=12):
+    """Demonstrate that the trace specification is bound to the recorded fields: for each corruptor, copies of up to
+    `limit` accepted events are corrupted in one logged field and validated again; at least one REJECT is required.
+    corruptors: list of (label, fn) with fn(event_copy) -> event or None (not applicable).  Returns {label: [clauses]}."""
+    import copy
+    out = {}
+    for label, fn in corruptors:
+        bad = []
+        for ev in events:
+            if len(bad) >= limit:
+                break
+            c = fn(copy.deepcopy(ev))
+            if c is not None:
+                bad.append(c)
+        if not bad:
+            raise Machinery('binding demonstration %s/%s: no event to corrupt' % (name, label))
+        if group:
+            # keep stateful context: prepend the events of the same groups that precede the corrupted ones
+            gs = {b.get(group) for b in bad}
+            ctx = [e for e in events if e.get(group) in gs]
+            ids = {b['id'] for b in bad}
+            seq = [next(b for b in bad if b['id'] == e['id']) if e['id'] in ids else e for e in ctx]
+        else:
+            seq = bad
+        rej, _ = validate(module, seq, name + '-demo', per_shard=100000, env=env, group=group)
+        hit = sorted({c for i, c in rej if i in {b['id'] for b in bad}})
+        if not hit:
+            raise Machinery('binding demonstration %s/%s: corrupted events were accepted (trace specification does not constrain this field)' % (name, label))
+        out[label] = hit
+    return out
